@@ -117,6 +117,15 @@ pub mod fifty {
         }
     }
     impl Game {
+        /// other position queries a body might consult: arbitrary answers (the rule may not depend on them)
+        pub fn is_king_in_check(&self) -> bool {
+            kani::any()
+        }
+        pub fn moves(&self) -> MoveList {
+            let mut l = MoveList::new();
+            generate_legal_moves(self, &mut l);
+            l
+        }
         //@@ body: chess/game.rs :: impl Game / fn is_stalemate_by_fifty_move_rule => is_stalemate_by_fifty_move_rule pub
     }
 }
@@ -143,8 +152,8 @@ fn vk_c11_fifty_rule() {
     kani::cover!(clock >= 100 && n == 0);
     kani::cover!(clock == 100 && n > 0);
     if clock >= 100 {
-        assert!(unsafe { fifty::GEN_CALLS } == 1);
-        assert!(got == (n > 0));
+        assert!(unsafe { fifty::GEN_CALLS } == 1, "the legal moves are consulted (once) when the clock has run out");
+        assert!(got == (n > 0), "draw exactly when the side to move still has a legal move");
     } else {
         assert!(!got);
     }
